@@ -674,8 +674,12 @@ class C12(SimSpec):
         if tr.status == 'completed' and len(canonical_len(sc)) % 3 == 0 and tr.final_now > 2:
             T_ = int(tr.final_now)
             k = max(1, (len(canonical_len(sc)) // 3) % (T_ - 1))
-            tr.paused = run_scenario(sc, pause=[k, T_])
+            # ... or to a few steps PAST the completion of the workload: those steps are simulated, so they get rows too
+            tail = (0, 2, 3)[(len(canonical_len(sc)) // 9) % 3]
+            tr.paused = run_scenario(sc, pause=[k, T_ + tail])
             tr.paused.pause_points = [k]
+            if tail:
+                tr.counts['resumed_past_completion'] = 1
         return tr
 
     def violations(self, tr):
